@@ -18,6 +18,9 @@ What is modelled, and how:
     part of Python's parser + `compile` that reads those items back (duplicate
     parameter names are a SyntaxError);
   * `update_wrapper` = `updateWrapper`.
+`from_func` starts from what `inspect.getfullargspec` reports (`annOf`, `kwdOf`: entries naming
+a parameter / a keyword-only parameter), `get_func` installs the builder's dicts as they are.
+Several uses in one process, with the dicts as shared heap objects: `Session.lean`.
 Names, values (defaults, annotations, call arguments: compared by identity) and
 strings are natural numbers.  Core Lean only.
 -/
@@ -260,9 +263,18 @@ inductive Err where
   | missingArgument | existingArgument | syntaxError
 deriving DecidableEq, Repr
 
+def keyIn {α : Type} (ns : List Name) (p : Name × α) : Bool := ns.contains p.1
+
+/-- `inspect.getfullargspec(f).annotations` / `.kwonlydefaults`: both are built from the
+    signature, so an entry of `__annotations__` / `__kwdefaults__` that names no parameter
+    (no keyword-only parameter) - the annotation of an injected parameter, something the user
+    put there - is not reported -/
+def annOf (f : Func) : List (Name × Val) := f.ann.filter (keyIn (paramNames f))
+def kwdOf (f : Func) : List (Name × Val) := f.kwdefaults.filter (keyIn f.kwonly)
+
 def FB.fromFunc (f : Func) : FB :=
-  ⟨f.name, f.doc, f.module, f.args, f.varargs, f.varkw, f.defaults, f.kwonly, f.kwdefaults,
-   f.ann, f.retAnn, f.isAsync⟩
+  ⟨f.name, f.doc, f.module, f.args, f.varargs, f.varkw, f.defaults, f.kwonly, kwdOf f,
+   annOf f, f.retAnn, f.isAsync⟩
 
 /-- `reversed(list(zip(reversed(args), reversed(defaults))))` -/
 def zipR (args : List Name) (dfl : List Val) : List (Name × Val) :=
